@@ -6,6 +6,7 @@ CONSTANTS
   MaxLen = 3
   MXm = {1, 2, 3, 4, 5, 6, 7}
   MWraps = "unknown"
+  MForms = {"D"}
   MSrcs = {"peer", "peer2"}
   GenK = 1
 VIEW View
